@@ -57,6 +57,22 @@ namespace
             if (c + 1 < g->cycles) sched.schedule(MIN_TD);
         }
     };
+    using ListDyn = TSL<TS<Int>>;
+    struct DynListWriter   // grow-only dynamic list; indices 0..5 ("s<i>a" / "s<i>b"): writing index i grows the list to i+1, the skipped slots stay unset
+    {
+        static constexpr auto name = "c11_dyn_list_writer";
+        static constexpr bool schedule_on_start = true;
+        static void eval(NodeScheduler sched, DateTime now, Out<ListDyn> out)
+        {
+            const long c = rel(now);
+            if (c < g->cycles)
+            {
+                const std::string &ops = g->script[static_cast<std::size_t>(c)];
+                if (!ops.empty()) for (auto &op : split(ops, ',')) { const long i = op[1] - '0'; out.set(static_cast<std::size_t>(i), Int{op.back() == 'a' ? val_a(i + 1) : val_b(i + 1)}); }
+            }
+            if (c + 1 < g->cycles) sched.schedule(MIN_TD);
+        }
+    };
     long live_zero(long c) { return 1L << (40 + c % 16); }   // the live zero input ticks with a new value in every cycle
     struct ZeroWriter
     {
@@ -114,7 +130,7 @@ namespace
                 if (cfg[1] == 'n') return zero ? wire<stdlib::reduce_>(w, fn<SumNode>(), coll, Int{ZERO}).template as<TS<Int>>() : wire<stdlib::reduce_>(w, fn<SumNode>(), coll).template as<TS<Int>>();
                 return zero ? wire<stdlib::reduce_>(w, fn<SumGraph>(), coll, Int{ZERO}).template as<TS<Int>>() : wire<stdlib::reduce_>(w, fn<SumGraph>(), coll).template as<TS<Int>>();
             };
-            if (dict) r = wire_reduce(wire<DictWriter>(w)); else r = wire_reduce(wire<ListWriter>(w));
+            if (dict) r = wire_reduce(wire<DictWriter>(w)); else if (cfg[0] == 'y') r = wire_reduce(wire<DynListWriter>(w)); else r = wire_reduce(wire<ListWriter>(w));
             wire<EveryProbe>(w, r);
             GraphBuilder gb = std::move(w).finish();
             GraphExecutorBuilder eb;
@@ -214,6 +230,8 @@ void verif_enumerate(verif::Ctx &ctx)
         {{"do-", "doz"}, {"s1a", "s2a", "s3a", "e1", "e2", "e3", "s2b", "c"}, 3, 2},   // long lists: cancellations inside one cycle
         {{"lo-", "loz", "ln-", "lgz"}, {"s0a", "s1a", "s2a", "s3a", "s0b", "s2b"}, 2, 3},  // fixed TSL<TS<Int>,4>: unset slots are not live
     };
+    // grow-only dynamic TSL<TS<Int>>: writing index i grows the list to i+1; skipped (unset) slots are not live; growth crosses the leaf capacities 1->2->4->8
+    spaces.push_back({th ? std::vector<std::string>{"yo-", "yoz", "yn-", "ygz", "yoy"} : std::vector<std::string>{"yo-", "yoz", "ygy"}, th ? std::vector<std::string>{"s0a", "s1a", "s2a", "s4a", "s5a", "s0b", "s2b"} : std::vector<std::string>{"s0a", "s1a", "s2a", "s4a", "s0b", "s2b"}, 2, 3});
     // keys that exist before they hold a value (pending elements are not part of the fold, whenever they appear)
     spaces.push_back({{"do-", "doz", "dn-"}, {"n1", "n2", "s1a", "s2a", "s3a", "e1", "e2", "s1b"}, 2, 3});
     // a LIVE zero (a time-series that ticks with a new value every cycle): empty and singleton results must follow it, also after the tree shrank
